@@ -77,8 +77,29 @@ def setup(exe, r, c, b12=False, rsp=None, block_mode=None):
     else:
         sim.add_node(0, block_mode=block_mode)     # coap_cancel_observe() needs USE_LIBCOAP
         sim.add_node(1, block_mode=block_mode)
-    sim.cmd("oscore_server 1 %s" % conf_text(c["secret"], c["salt"], c["server_id"],
-                                             c["client_id"], c["idctx"], b12))
+    # other security contexts on the same server (RFC 8613 8.2 step 2 has to pick the right
+    # one): different sender/recipient ids, with and without an ID Context, configured before
+    # or after the one under test
+    real = conf_text(c["secret"], c["salt"], c["server_id"], c["client_id"], c["idctx"], b12)
+    before, after = [], []
+    if r.random() < 0.6:
+        for k in range(r.choice([1, 1, 2])):
+            while True:
+                sid = bytes([0xD0 + k, r.getrandbits(8)])
+                rid = bytes([0xE0 + k, r.getrandbits(8)])
+                if sid not in (c["server_id"], c["client_id"]) and rid not in (c["server_id"],
+                                                                               c["client_id"]):
+                    break
+            idc = bytes(r.getrandbits(8) for _ in range(r.choice([1, 4, 8]))) \
+                if r.random() < 0.6 else None
+            conf = conf_text(bytes(r.getrandbits(8) for _ in range(16)), b"", sid, rid, idc, b12)
+            (before if r.random() < 0.7 else after).append(conf)
+    # (the library appends a new context to its list)
+    for conf in before:
+        sim.cmd("oscore_server 1 %s" % conf)
+    sim.cmd("oscore_server 1 %s" % real)
+    for conf in after:
+        sim.cmd("oscore_server 1 %s" % conf)
     sim.cmd("ep 1 udp %s" % SERVER)
     rsp = rsp or {"code": 0x45, "payload": b"answer", "options": []}
     ro = ",".join("%d=%s" % (n, v.hex()) for n, v in rsp["options"])
